@@ -66,7 +66,7 @@ def body(run):
     q = run.quick()
     def case(n, w, ch, iv, mode, pause, **kw):
         d = {"nodes": n, "writes": w, "churn": ch, "interval": iv, "mode": mode, "pause": pause,
-             "app": 0, "ts": 0, "map": 0, "late": 0}
+             "app": 0, "ts": 0, "map": 0, "late": 0, "forced": 0}
         d.update(kw)
         return d
 
@@ -77,6 +77,9 @@ def body(run):
         # application mode: callback-backed nodes / map keys changed inside the server and announced with
         # Server.ChangeNotification / MapNamespace.SetValue from concurrent goroutines; the callback pauses after sampling
         case(3, 300, 0, 10, "cb", 100, app=1), case(2, 300, 10, 10, "chan", 100, app=1, map=1, late=1),
+        # forced interleaving (independent of the seed): announcer 1 samples v1 and is parked in the value callback,
+        # announcer 2 samples and queues v2, then announcer 1 queues v1 -- 3 repetitions on each of 2 nodes
+        case(2, 0, 0, 10, "cb", 0, app=1, forced=3), case(2, 0, 0, 20, "chan", 0, app=1, forced=2),
         # explicit, non-monotonic source timestamps, several writes per publishing interval
         case(3, 300, 0, 50, "cb", 200, ts=1, map=1, late=1), case(2, 200, 10, 20, "chan", 100, ts=1),
     ]
@@ -163,6 +166,7 @@ def body(run):
         "drain after the last write: no notification for max(10 publishing intervals, 500 ms) (at most 15 s), then every node is read",
         "'handle not found' messages (DataChangeMessage.Error set, no node id) are counted but are not data changes",
         "map=1: the keys of a MapNamespace are monitored and written as well (application mode: MapNamespace.SetValue); ts=1: client writes carry explicit source timestamps drawn at random within +-1 h (not monotonic); late=1: after the last write a second subscription of the same NodeMonitor adds every node in one request and must still converge (one trace per subscription)",
+        "forced=N: the value callback parks announcer 1 right after sampling until announcer 2 is through or 6 publishing intervals + 150 ms have passed (a server that serialises announcers only gets slower); the interleaving does not depend on VERIF_SEED",
         "application mode: the value of a callback-backed node is changed by one goroutine per node and announced with Server.ChangeNotification from a goroutine per change; the value callback pauses up to 0.4 ms after sampling on every third call (scheduler gate through the public ValueFunc)",
         "the application consumes notifications immediately (deep channel / cheap callback): slow-consumer drops are outside the property",
     ]
